@@ -47,7 +47,7 @@ type c19env struct {
 
 // readerWork runs nOps read-only operations on frames [0,limit) of b and
 // returns a digest of everything it observed.
-func (e *c19env) readerWork(b dyn.Buf, limit int, r *core.Rand, nOps int, yield func()) uint64 {
+func (e *c19env) readerWork(b dyn.Buf, limit int, spareOK bool, r *core.Rand, nOps int, yield func()) uint64 {
 	h := core.NewHash()
 	ch := e.ch
 	for op := 0; op < nOps; op++ {
@@ -84,9 +84,19 @@ func (e *c19env) readerWork(b dyn.Buf, limit int, r *core.Rand, nOps int, yield 
 			}
 		case 5, 6:
 			s := r.Range(0, limit)
-			en := r.Range(s, limit)
+			top := limit
+			if r.Chance(1, 3) {
+				// a view that reaches past the reader's range, up to the capacity:
+				// building it is header-only; its samples are read only where
+				// nobody writes (phase A: the spare capacity too)
+				top = b.Capacity()
+			}
+			en := r.Range(s, top)
 			v := b.Slice(s, en)
 			h.Int(v.Len()).Int(v.Length()).Int(v.Channels()).Int(v.BitDepth())
+			if en > limit && !spareOK {
+				en = limit
+			}
 			if en > s {
 				v2 := v.Slice(0, r.Range(0, en-s))
 				h.Int(v2.Len())
@@ -312,19 +322,33 @@ func runC19(c *core.Ctx) {
 					defer wg.Done()
 					<-start
 					yr := core.NewRand(c.Seed, 77, uint64(g))
-					got[g] = e.readerWork(shared, frames, core.NewRand(c.Seed, core.HashStr(caseID), uint64(g)), nOps, yield(yr))
+					got[g] = e.readerWork(shared, frames, true, core.NewRand(c.Seed, core.HashStr(caseID), uint64(g)), nOps, yield(yr))
 				}(g)
 			}
 			close(start)
 			wg.Wait()
 			for g := 0; g < R; g++ {
-				want[g] = e.readerWork(seqA, frames, core.NewRand(c.Seed, core.HashStr(caseID), uint64(g)), nOps, nil)
+				want[g] = e.readerWork(seqA, frames, true, core.NewRand(c.Seed, core.HashStr(caseID), uint64(g)), nOps, nil)
 			}
 			for g := 0; g < R; g++ {
 				c.Eval(1)
 				c.Distinct(core.NewHash().Str(caseID).Str("A").Int(g).Sum())
 				if got[g] != want[g] {
 					c.Violate("readers["+t.Name+"]|digest", caseID, fmt.Sprintf("phase A: reader %d observed a different result concurrently (digest %#x) than sequentially (%#x)", g, got[g], want[g]), cfgD)
+				}
+			}
+			// read-only work leaves every sample of the storage as it was
+			pristine := mk()
+			for _, bb := range []dyn.Buf{shared, seqA} {
+				if bb.RawLen() != pristine.RawLen() || bb.RawCap() != pristine.RawCap() {
+					c.Violate("readers["+t.Name+"]|shape", caseID, "phase A: the buffer changed shape under read-only use", cfgD)
+					break
+				}
+				for i := 0; i < bb.RawCap(); i++ {
+					if a, b := bb.RawAt(i), pristine.RawAt(i); !a.Same(b) {
+						c.Violate("readers["+t.Name+"]|contents", caseID, fmt.Sprintf("phase A: position %d (frame %d of %d, capacity %d) was %v and is %v after read-only use", i, i/ch, frames, bb.Capacity(), b, a), cfgD)
+						break
+					}
 				}
 			}
 			c.Obs("reader_work_lists", int64(R))
@@ -342,7 +366,7 @@ func runC19(c *core.Ctx) {
 			seq := mk()
 			wantR := make([]uint64, R)
 			for g := 0; g < R; g++ {
-				wantR[g] = e.readerWork(seq, ro, core.NewRand(c.Seed, core.HashStr(caseID), 100+uint64(g)), nOps, nil)
+				wantR[g] = e.readerWork(seq, ro, false, core.NewRand(c.Seed, core.HashStr(caseID), 100+uint64(g)), nOps, nil)
 			}
 			seqPanic := false
 			for wI := 0; wI < W; wI++ {
@@ -364,7 +388,7 @@ func runC19(c *core.Ctx) {
 				go func(g int) {
 					defer wg.Done()
 					<-start
-					gotR[g] = e.readerWork(shared, ro, core.NewRand(c.Seed, core.HashStr(caseID), 100+uint64(g)), nOps, yield(core.NewRand(c.Seed, 78, uint64(g))))
+					gotR[g] = e.readerWork(shared, ro, false, core.NewRand(c.Seed, core.HashStr(caseID), 100+uint64(g)), nOps, yield(core.NewRand(c.Seed, 78, uint64(g))))
 				}(g)
 			}
 			for wI := 0; wI < W; wI++ {
